@@ -261,6 +261,19 @@ theorem C18_strip_whitespace_irrelevant (ws : Char → Bool) (hsp : ws ' ' = tru
     stripBoth ws (subInvalid display) = pyStrip (subInvalid display) :=
   strip_ws_eq ws hsp hok display
 
+/-- What does hold for the sanitisers as they were before the repair: whenever the sanitised
+    name is non-empty and at most 56 characters long, both labels are valid. The excluded display
+    names (nothing left after sanitising; more than 56 characters left) are exactly where the
+    counterexamples below live. -/
+theorem C18_names_valid_partial (display mac : List Char) (hmac : WfMac mac)
+    (h1 : validNameLegacy display ≠ []) (h2 : (validNameLegacy display).length ≤ 56)
+    (h3 : validHostNameLegacy display ≠ []) (h4 : (validHostNameLegacy display).length ≤ 56) :
+    ValidInstanceLabel (instanceLabel (validNameLegacy display) mac) ∧
+    ValidHostLabel (hostLabel (validHostNameLegacy display) mac) := by
+  have hs := shortMac_wf hmac
+  exact ⟨instanceLabel_valid _ _ h1 h2 (validNameLegacy_chars display) (validNameLegacy_head display) hs,
+         hostLabel_valid _ _ h3 h4 (validHostNameLegacy_chars display) (validHostNameLegacy_head display) hs⟩
+
 /-- The sanitisers as they were before the repair violate the property: "!!!" gives the host
     label "-7A8FA9" and the instance label " 7A8FA9"; a 57-character name gives a 64-byte label. -/
 theorem C18_names_legacy_counterexample :
@@ -277,6 +290,15 @@ example : hostLabel (validHostName "- - H---A---P---P---Y - -".toList) "00:00:00
 example : instanceLabel (validName "!!!".toList) "AA:BB:CC:7A:8F:A9".toList = "HAP 7A8FA9".toList := by decide
 example : xhmUri 1 3145154 "ABCD".toList = "X-HM://001408XXEABCD".toList := by decide
 example : (setHash (⟨65535, some "a"⟩ : Cfg String) "b").1.cfg = 1 := by decide
+/-- a database with two value-carrying characteristics and a history that changes both values -/
+def exDb : Db String Nat :=
+  [⟨1, [⟨1, "info", [⟨2, "name:pr", 0⟩]⟩, ⟨8, "lightbulb", [⟨9, "on:pr,pw,ev", 0⟩, ⟨10, "brightness:0..100", 50⟩]⟩]⟩]
+def exOps : List (Nat × Nat × (Nat → Nat)) := [(1, 9, fun _ => 1), (1, 10, fun v => v + 7)]
+example : (valueOps exOps exDb).map (fun a => a.services.map fun s => s.chars.map (·.value))
+    = [[[0], [1, 57]]] := rfl
+example : renderNoVal (valueOps exOps exDb) = renderNoVal exDb := rfl
+example : (restart (fun r => r.length) ⟨7, some 1⟩ (valueOps exOps exDb)).1.cfg = 7 := by decide
+example : (restart (fun r => r.length) ⟨65535, some 1⟩ (exDb ++ [⟨2, []⟩])).1.cfg = 1 := by decide
 example : (run (init ⟨['x'], 1, [], 1, false, ""⟩ [])
     [.request 0 (.pairSetupM5 7 true), .execRun 0, .loopRun 0,
      .request 1 (.removePairing (some 7) 7), .execRun 0, .loopRun 0]).log.map
